@@ -156,7 +156,7 @@ package mast
 //@ pure
 //@ requires nonnil (> m 0)
 //@ requires root (RootOK H m)
-//@ ensures def (= result (and (isPtr (Mast.root H0 m)) (mastNode.dirty H0 (a.val (Mast.root H0 m)))))
+//@ ensures def (= result (or (isNil (Mast.root H0 m)) (and (isPtr (Mast.root H0 m)) (mastNode.dirty H0 (a.val (Mast.root H0 m))))))
 
 //@ func emptyNode
 //@ tags C01 C02 C09
@@ -212,14 +212,17 @@ package mast
 
 //@ ghost G.loads Int
 
+// validateNode reports a malformed node (count mismatch, first two keys out of order, failing
+// comparison) as an error; on a well-shaped node whose first keys are in order it succeeds
+// whenever the comparison callback does (C12, C19: no panic on what comes from the store).
 //@ func validateNode
-//@ tags C01 C19
-//@ safe-under healthy
-//@ pure
+//@ tags C01 C12 C19
+//@ modifies W Arr.Any@fresh
 //@ requires nn (and (> node 0) (> mast 0) (not (= (Mast.keyOrder H mast) 0)))
-//@ requires shape [C01] (Shape H node)
-//@ requires sorted2 [T3] (=> (>= (nkeys H node) 2) (< (ord (KeyAt H node 0) (KeyAt H node 1)) 0))
+//@ ensures ok [C01 C19] (=> (and healthy (Shape H0 node) (=> (>= (nkeys H0 node) 2) (< (ord (KeyAt H0 node 0) (KeyAt H0 node 1)) 0))) (= result anil))
+//@ ensures rejects [C19] (=> (= result anil) (Shape H0 node))
 //@ loop 1 invariant nonneg (>= i 0)
+//@ loop 1 invariant sorted [C01 C19] (=> (and (> i 0) (>= (nkeys H node) 2)) (< (ord (KeyAt H node 0) (KeyAt H node 1)) 0))
 
 //@ func (*mastNode).ToMut
 //@ tags C01 C02 C11
@@ -510,7 +513,7 @@ package mast
 //@ requires ok (MastOK H m)
 //@ requires cb (not (= f 0))
 //@ requires globals (GlobalsOK H)
-//@ loop 1 invariant idx (< i#2 (sl.len (findOptions.path H options&)))
+//@ loop 1 invariant idx (< i (sl.len (findOptions.path H options&)))
 //@ loop 1 invariant closure [T3] (and (AllOK H) (PathOK H (findOptions.path H options&)))
 
 // ---------------------------------------------------------------------------------------
@@ -1205,7 +1208,7 @@ package mast
 //@ requires closure [T3] (and (AllOK H) (forall ((r Int)) (! (=> (mastNode.dirty H r) (= (mastNode.source H r) 0)) :pattern ((mastNode.dirty H r)))))
 //@ ensures nopersist [C03] (=> (isNil (Mast.persist H0 m)) (and (isErr err) (= (Mast.root H m) (Mast.root H0 m))))
 //@ ensures nilroot [C13] (=> (and (not (isNil (Mast.persist H0 m))) (isNil (Mast.root H0 m))) (and (= err anil) (= result0 "") (= (Mast.root H m) (Mast.root H0 m)) (NodesSame H0 H W0) (= (G.durable H) (G.durable H0))))
-//@ ensures ok [C03 C13] (=> (and (= err anil) (not (isNil (Mast.root H0 m)))) (and (= (Mast.root H m) (strAny result0)) (G.waited H)))
+//@ ensures ok [C03 C13] (=> (and (= err anil) (not (isNil (Mast.root H0 m))) (not (= result0 ""))) (and (= (Mast.root H m) (strAny result0)) (G.waited H)))
 //@ ensures fail [C03 C12] (=> (isErr err) (= (Mast.root H m) (Mast.root H0 m)))
 //@ ensures sharedclean [C02 C11 C13] (SharedClean H)
 //@ loop 1 invariant gate (and (<= 0 i) (= (Mast.root H m) (Mast.root H0 m)))
